@@ -18,8 +18,8 @@ from fractions import Fraction
 
 VERIF = os.path.dirname(os.path.dirname(os.path.abspath(__file__)))
 LEAN = os.path.join(VERIF, "lean")
-OUT = os.path.join(VERIF, "out")
-EVID = os.path.join(VERIF, "evidence")
+OUT = os.environ.get("VERIF_OUT") or os.path.join(VERIF, "out")            # overridden only by tools/seed_survey.py (parallel runs)
+EVID = os.environ.get("VERIF_EVID") or os.path.join(VERIF, "evidence")
 REPO = os.environ.get("RELSAD_REPO", "/repo")
 GUARD = "STINEFM_RELSAD_VERIF"
 DRIVER_EXE = os.path.join(LEAN, ".lake", "build", "bin", "relsad_driver")
